@@ -1,17 +1,310 @@
 package symgo
 
-// Access log and lock bookkeeping for the C06 lock-discipline check (filled in later).
+// Access log and lock bookkeeping for the C06 lock-discipline check.
+//
+// The executor is single-threaded. A harness runs operation A as "thread 1" and operation B
+// as "thread 2" one after the other; every load and store of a memory cell that is not owned
+// by the running thread is logged with the thread id, the set of locks held (and their mode)
+// and whether the access is atomic. At the end, two accesses of different threads to the same
+// cell, at least one a write, are a data race unless both are atomic or a common lock is held
+// with at least one side holding it exclusively. This condition does not depend on the
+// schedule: it is the sufficient condition for data-race freedom that a lockset analysis checks.
 
-func (e *Exec) access(addr *value, write, atomic bool) {}
+import (
+	"fmt"
+	"os"
+	"sort"
+)
+
+type accessRec struct {
+	write  bool
+	atomic bool
+	thread int
+	locks  map[*value]int // 1 = shared, 2 = exclusive
+	pos    string
+}
+
+type accessLog struct {
+	enabled bool
+	recs    map[*value][]accessRec
+	maps    map[uintptr][]accessRec
+	held    map[int]map[*value]int
+	owned   map[*value]int // cell -> owning thread
+	ownedMaps map[uintptr]int
+	lockOps map[int][]string
+}
+
+func (e *Exec) enableAccessLog() {
+	e.alog = &accessLog{enabled: true, recs: map[*value][]accessRec{}, maps: map[uintptr][]accessRec{},
+		held: map[int]map[*value]int{}, owned: map[*value]int{}, lockOps: map[int][]string{}}
+}
 
 func (e *Exec) lockOp(mu *value, op string) {
 	if e.onLock != nil {
 		e.onLock(mu, op)
 	}
+	a := e.alog
+	if a == nil || e.thread == 0 {
+		return
+	}
+	h := a.held[e.thread]
+	if h == nil {
+		h = map[*value]int{}
+		a.held[e.thread] = h
+	}
+	a.lockOps[e.thread] = append(a.lockOps[e.thread], op)
+	switch op {
+	case "Lock":
+		h[mu] = 2
+	case "RLock":
+		h[mu] = 1
+	case "Unlock", "RUnlock":
+		delete(h, mu)
+	}
 }
 
-func (e *Exec) enableAccessLog() {}
-func (e *Exec) finishAccessLog() {}
+func (e *Exec) snapshotLocks() map[*value]int {
+	h := e.alog.held[e.thread]
+	if len(h) == 0 {
+		return nil
+	}
+	cp := make(map[*value]int, len(h))
+	for k, v := range h {
+		cp[k] = v
+	}
+	return cp
+}
+
+func (e *Exec) curPos() string {
+	if e.curInstr == nil {
+		return "?"
+	}
+	return e.posStr(e.curInstr.Pos())
+}
+
+// access logs a load or store of cell addr by the current thread.
+func (e *Exec) access(addr *value, write, atomic bool) {
+	a := e.alog
+	if a == nil || e.thread == 0 || addr == nil {
+		return
+	}
+	if t, ok := a.owned[addr]; ok && t == e.thread {
+		return
+	}
+	if logZ3 {
+		t, ok := a.owned[addr]
+		fmt.Fprintf(os.Stderr, "ACCESS T%d write=%v at %s owned=%v/%d nowned=%d\n", e.thread, write, e.curPos(), ok, t, len(a.owned))
+	}
+	rs := a.recs[addr]
+	// keep the log small: one record per (thread, write, atomic, lockset shape) per cell
+	locks := e.snapshotLocks()
+	for _, r := range rs {
+		if r.thread == e.thread && r.write == write && r.atomic == atomic && sameLocks(r.locks, locks) {
+			return
+		}
+	}
+	a.recs[addr] = append(rs, accessRec{write: write, atomic: atomic, thread: e.thread, locks: locks, pos: e.curPos()})
+}
+
+func (e *Exec) accessMap(id uintptr, write bool) {
+	a := e.alog
+	if a == nil || e.thread == 0 || id == 0 {
+		return
+	}
+	if t, ok := a.ownedMaps[id]; ok && t == e.thread {
+		return
+	}
+	a.maps[id] = append(a.maps[id], accessRec{write: write, thread: e.thread, locks: e.snapshotLocks(), pos: e.curPos()})
+}
+
+func sameLocks(a, b map[*value]int) bool {
+	if len(a) != len(b) {
+		return false
+	}
+	for k, v := range a {
+		if b[k] != v {
+			return false
+		}
+	}
+	return true
+}
+
+// own marks every cell reachable from v (through pointers, slices, structs, arrays) as owned by the
+// current thread: an object obtained from a sync.Pool is exclusively its holder's until it is Put back.
+func (e *Exec) own(v value, depth int) {
+	if e.alog == nil || e.thread == 0 {
+		return
+	}
+	e.ownRec(v, depth, map[*value]bool{})
+}
+
+func (e *Exec) ownRec(v value, depth int, seen map[*value]bool) {
+	a := e.alog
+	if depth > 8 {
+		return
+	}
+	switch v := v.(type) {
+	case *value:
+		if v == nil || seen[v] {
+			return
+		}
+		seen[v] = true
+		a.owned[v] = e.thread
+		e.ownRec(*v, depth+1, seen)
+	case []value:
+		full := v[:cap(v)]
+		for i := range full {
+			if !seen[&full[i]] {
+				seen[&full[i]] = true
+				a.owned[&full[i]] = e.thread
+				e.ownRec(full[i], depth+1, seen)
+			}
+		}
+	case structure:
+		for i := range v {
+			if !seen[&v[i]] {
+				seen[&v[i]] = true
+				a.owned[&v[i]] = e.thread
+				e.ownRec(v[i], depth+1, seen)
+			}
+		}
+	case array:
+		for i := range v {
+			if !seen[&v[i]] {
+				seen[&v[i]] = true
+				a.owned[&v[i]] = e.thread
+				e.ownRec(v[i], depth+1, seen)
+			}
+		}
+	case iface:
+		e.ownRec(v.v, depth+1, seen)
+	case map[value]value:
+		if v != nil {
+			if a.ownedMaps == nil {
+				a.ownedMaps = map[uintptr]int{}
+			}
+			a.ownedMaps[mapID(v)] = e.thread
+		}
+	}
+}
+
+// publish: storing v into a cell that is not owned makes everything reachable from v shared.
+func (e *Exec) publish(v value, depth int) {
+	a := e.alog
+	if a == nil || depth > 6 {
+		return
+	}
+	switch v := v.(type) {
+	case *value:
+		if v == nil {
+			return
+		}
+		if _, ok := a.owned[v]; ok {
+			delete(a.owned, v)
+			e.publish(*v, depth+1)
+		}
+	case []value:
+		full := v[:cap(v)]
+		for i := range full {
+			if _, ok := a.owned[&full[i]]; ok {
+				delete(a.owned, &full[i])
+				e.publish(full[i], depth+1)
+			}
+		}
+	case structure:
+		for i := range v {
+			if _, ok := a.owned[&v[i]]; ok {
+				delete(a.owned, &v[i])
+			}
+			e.publish(v[i], depth+1)
+		}
+	case iface:
+		e.publish(v.v, depth+1)
+	}
+}
+
+// onStoreAccess is called for every store through addr of value v.
+func (e *Exec) onStoreAccess(addr *value, v value) {
+	a := e.alog
+	if a == nil || e.thread == 0 {
+		return
+	}
+	if t, ok := a.owned[addr]; ok && t == e.thread {
+		return
+	}
+	e.access(addr, true, false)
+	// storing into a cell this thread does not own makes what v reaches visible to other threads
+	e.publish(v, 0)
+}
+
+func lockCompatible(x, y accessRec) bool {
+	for mu, mx := range x.locks {
+		if my, ok := y.locks[mu]; ok && (mx == 2 || my == 2) {
+			return true
+		}
+	}
+	return false
+}
+
+// finishAccessLog evaluates the race condition over the log and records findings.
+func (e *Exec) finishAccessLog() {
+	a := e.alog
+	if a == nil {
+		return
+	}
+	seen := map[string]bool{}
+	check := func(rs []accessRec, what string) {
+		for i := range rs {
+			for j := i + 1; j < len(rs); j++ {
+				x, y := rs[i], rs[j]
+				if x.thread == y.thread || (!x.write && !y.write) {
+					continue
+				}
+				if x.atomic && y.atomic {
+					continue
+				}
+				if lockCompatible(x, y) {
+					continue
+				}
+				p := []string{x.pos, y.pos}
+				sort.Strings(p)
+				key := fmt.Sprintf("%s|%s", p[0], p[1])
+				if seen[key] {
+					continue
+				}
+				seen[key] = true
+				desc := fmt.Sprintf("data-race %s: %s(%s) vs %s(%s)", what, rw(x), x.pos, rw(y), y.pos)
+				e.races = append(e.races, desc)
+				e.stats.Obligations++
+				e.stats.Violated++
+				e.sites[x.pos+"/race"] = true
+				e.sites[y.pos+"/race"] = true
+				e.recordFinding("race", "data-race:"+key, key, nil)
+			}
+		}
+	}
+	for _, rs := range a.recs {
+		check(rs, "cell")
+	}
+	for _, rs := range a.maps {
+		check(rs, "map")
+	}
+	e.stats.Obligations++
+	if len(e.races) == 0 {
+		e.stats.Discharged++
+	}
+}
+
+func rw(r accessRec) string {
+	s := "read"
+	if r.write {
+		s = "write"
+	}
+	if r.atomic {
+		s = "atomic-" + s
+	}
+	return fmt.Sprintf("%s@T%d", s, r.thread)
+}
 
 func (e *Exec) watchWrite(cells []value) {
 	for i := range cells {
